@@ -141,19 +141,33 @@ func synthArgs(m reflect.Method, isList bool, size int, variant int) ([]reflect.
 		in := t.In(i)
 		variadic := t.IsVariadic() && i == t.NumIn()-1
 		switch {
+		case variadic && variant%3 == 1:
+			// no variadic argument at all: Add(), Set(), Delete(), Unset() are calls like any other
 		case variadic && in.Elem().Kind() == reflect.Interface: // ...any : Add(values) / Set(pairs)
 			if m.Name == "Set" {
 				args = append(args, reflect.ValueOf("k"), reflect.ValueOf(variant))
+				if variant%3 == 2 {
+					args = append(args, reflect.ValueOf("k2"), reflect.ValueOf("second pair"))
+				}
 			} else {
 				args = append(args, reflect.ValueOf(variant))
+				if variant%3 == 2 {
+					args = append(args, reflect.ValueOf("second"), reflect.ValueOf(true))
+				}
 			}
 		case variadic && in.Elem().Kind() == reflect.Int: // Delete(indexes...)
 			if size == 0 {
 				return nil, false
 			}
 			args = append(args, reflect.ValueOf(0))
+			if variant%3 == 2 && size > 1 {
+				args = append(args, reflect.ValueOf(size-1))
+			}
 		case variadic && in.Elem().Kind() == reflect.String: // Unset / Pluck
 			args = append(args, reflect.ValueOf("k"))
+			if variant%3 == 2 {
+				args = append(args, reflect.ValueOf("absent"), reflect.ValueOf("a"))
+			}
 		case in.Kind() == reflect.Int:
 			switch m.Name {
 			case "Insert":
@@ -553,31 +567,47 @@ func runC19(c *fw.Ctx) {
 					same("Object.Get after "+st.name, ho.Get("d"))
 					same("Object.GetTF after "+st.name, ho.GetTF(".d"))
 				}
-				hl := at.NewList(0, fx.outer, "s")
-				pos := 1
-				lsteps := []struct {
-					name string
-					f    func()
-				}{
-					{"Add(two)", func() { hl.Add(1, at.NewList()) }},
-					{"Insert(front)", func() { hl.Insert(0, "f"); pos++ }},
-					{"Insert(behind)", func() { hl.Insert(pos+1, "b") }},
-					{"Replace(neighbour)", func() { hl.Replace(pos-1, []any{1}) }},
-					{"Delete(neighbours)", func() { hl.Delete(pos+1, 0); pos-- }},
-					{"Pop", func() { hl.Pop() }},
-					{"SetTF(pad)", func() { hl.SetTF(fmt.Sprintf("#%d", hl.Count()+2), 1) }},
-					{"Reverse twice", func() { hl.Reverse().Reverse() }},
-					{"Concat result", func() { hl = hl.Concat(at.NewList(1)).Add(2) }},
-					{"SubList result", func() { hl = hl.SubList(0, 0).Add(3) }},
-					{"Filter result", func() { hl = hl.Filter(func(any) bool { return true }).Add(4) }},
-				}
-				for _, st := range lsteps {
-					if pan, msg := drive.Protect(st.f); pan {
-						c.Violate("holder-mutation-panics", in()+" / "+st.name, "no panic", msg)
-						break
+				// holders whose storage is exactly full (NewListFrom, Concat and SubList results) and holders with spare room
+				for hb := 0; hb < 4; hb++ {
+					var hl at.List
+					switch hb {
+					case 0:
+						hl = at.NewList(0, fx.outer, "s")
+					case 1:
+						hl = at.NewListFrom([]any{0, fx.outer, "s"})
+					case 2:
+						hl = at.NewList(0, fx.outer).Concat(at.NewList("s"))
+					default:
+						hl = at.NewList(0, fx.outer, "s", "t").SubList(0, 3)
 					}
-					same("List.Get after "+st.name, hl.Get(pos))
-					same("List.GetTF after "+st.name, hl.GetTF(fmt.Sprintf("#%d", pos)))
+					same(fmt.Sprintf("List.Get (holder built in way %d)", hb), hl.Get(1))
+					pos := 1
+					lsteps := []struct {
+						name string
+						f    func()
+					}{
+						{"Insert(front, first mutation)", func() { hl.Insert(0, "f0"); pos++ }},
+						{"Insert(middle)", func() { hl.Insert(pos+1, "m") }},
+						{"Add(two)", func() { hl.Add(1, at.NewList()) }},
+						{"Insert(front)", func() { hl.Insert(0, "f"); pos++ }},
+						{"Insert(behind)", func() { hl.Insert(pos+1, "b") }},
+						{"Replace(neighbour)", func() { hl.Replace(pos-1, []any{1}) }},
+						{"Delete(neighbours)", func() { hl.Delete(pos+1, 0); pos-- }},
+						{"Pop", func() { hl.Pop() }},
+						{"SetTF(pad)", func() { hl.SetTF(fmt.Sprintf("#%d", hl.Count()+2), 1) }},
+						{"Reverse twice", func() { hl.Reverse().Reverse() }},
+						{"Concat result", func() { hl = hl.Concat(at.NewList(1)).Add(2) }},
+						{"SubList result", func() { hl = hl.SubList(0, 0).Add(3) }},
+						{"Filter result", func() { hl = hl.Filter(func(any) bool { return true }).Add(4) }},
+					}
+					for _, st := range lsteps {
+						if pan, msg := drive.Protect(st.f); pan {
+							c.Violate("holder-mutation-panics", in()+" / "+st.name, "no panic", msg)
+							break
+						}
+						same("List.Get after "+st.name, hl.Get(pos))
+						same("List.GetTF after "+st.name, hl.GetTF(fmt.Sprintf("#%d", pos)))
+					}
 				}
 			}
 			// reversing / moving the holder keeps the identity
